@@ -4,10 +4,10 @@ package main
 
 import (
 	"fmt"
-	"sort"
 	"go/constant"
 	"go/token"
 	"go/types"
+	"sort"
 	"strings"
 
 	"golang.org/x/tools/go/ssa"
@@ -23,6 +23,7 @@ type Env struct {
 	frame *Frame // for local cells by name (nil in callee-contract evaluation)
 	bound map[string]Val
 	inOld bool
+	prev  *State // loop-head state of the current iteration
 }
 
 func (f *Frame) env(st *State) *Env {
@@ -164,7 +165,13 @@ func (e *Env) eval(x Expr) Val {
 	case EOld:
 		oe := e.inState(e.old)
 		oe.inOld = true
-		return oe.eval(t.X)
+		return oe.pinContent(oe.eval(t.X))
+	case EPrev:
+		if e.prev == nil {
+			unsup("spec: prev() is only available at a loop back edge")
+		}
+		pe := e.inState(e.prev)
+		return pe.pinContent(pe.eval(t.X))
 	case EUnary:
 		switch t.Op {
 		case "!":
@@ -204,7 +211,7 @@ func (e *Env) eval(x Expr) Val {
 		if t.Hi != nil {
 			hi = e.eval(t.Hi).T
 		}
-		return Val{T: fmt.Sprintf("(mk_slice (arr %s) (+ (off %s) %s) (- %s %s) (- (cap %s) %s))", xv.T, xv.T, lo, hi, lo, xv.T, lo), Typ: xv.Typ}
+		return Val{T: fmt.Sprintf("(mk_slice (arr %s) (+ (off %s) %s) (- %s %s) (- (cap %s) %s))", xv.T, xv.T, lo, hi, lo, xv.T, lo), Typ: xv.Typ, Content: xv.Content}
 	case ECall:
 		return e.callSpec(t)
 	case EForall:
@@ -459,6 +466,9 @@ func (e *Env) index(t EIndex) Val {
 	}
 	switch u := types.Unalias(xv.Typ).Underlying().(type) {
 	case *types.Slice:
+		if xv.Content != "" {
+			return Val{T: fmt.Sprintf("(select %s (+ (off %s) %s))", xv.Content, xv.T, iv.T), Typ: u.Elem()}
+		}
 		c := vc.comp(e.st, elemComp(u.Elem()), vc.elemCompSort(u.Elem()), u.Elem())
 		return Val{T: fmt.Sprintf("(select (select %s (arr %s)) (+ (off %s) %s))", c, xv.T, xv.T, iv.T), Typ: u.Elem()}
 	case *types.Basic:
@@ -660,6 +670,8 @@ func findIndexed(x Expr, j string, inOld bool) (Expr, bool) {
 		return findIndexed(t.I, j, inOld)
 	case EOld:
 		return findIndexed(t.X, j, true)
+	case EPrev:
+		return nil, false
 	case EUnary:
 		return findIndexed(t.X, j, inOld)
 	case EBinary:
@@ -702,6 +714,8 @@ func mentions(x Expr, name string) bool {
 		return mentions(t.X, name) || (t.Lo != nil && mentions(t.Lo, name)) || (t.Hi != nil && mentions(t.Hi, name))
 	case EOld:
 		return mentions(t.X, name)
+	case EPrev:
+		return mentions(t.X, name)
 	case EUnary:
 		return mentions(t.X, name)
 	case EBinary:
@@ -727,6 +741,9 @@ func (e *Env) expandArg(v Val) []string {
 	vc := e.vc
 	if v.Typ != nil {
 		if sl, ok := types.Unalias(v.Typ).Underlying().(*types.Slice); ok {
+			if v.Content != "" {
+				return []string{v.Content, fmt.Sprintf("(off %s)", v.T)}
+			}
 			c := vc.comp(e.st, elemComp(sl.Elem()), vc.elemCompSort(sl.Elem()), sl.Elem())
 			return []string{fmt.Sprintf("(select %s (arr %s))", c, v.T), fmt.Sprintf("(off %s)", v.T)}
 		}
@@ -1115,4 +1132,17 @@ func qualifierPath(path string) string {
 		return "schema"
 	}
 	return strings.TrimPrefix(path, modPrefix)
+}
+
+// pinContent: a slice value taken from another state (old / prev) keeps the content of its backing array
+// in that state, so that indexing it or passing it to a spec function does not read the current heap.
+func (e *Env) pinContent(v Val) Val {
+	if v.Typ == nil || v.Content != "" {
+		return v
+	}
+	if sl, ok := types.Unalias(v.Typ).Underlying().(*types.Slice); ok {
+		c := e.vc.comp(e.st, elemComp(sl.Elem()), e.vc.elemCompSort(sl.Elem()), sl.Elem())
+		v.Content = e.vc.define("oldc", "(Array Int "+e.vc.sortOf(sl.Elem())+")", fmt.Sprintf("(select %s (arr %s))", c, v.T))
+	}
+	return v
 }
